@@ -207,10 +207,68 @@ def registry_history(run, model, rng):
     run.nontriv(tuple(hist))
 
 
+def drawer_history(run, model, rng):
+    """logs of the I/O drawer (creator 'M', component 0x2C00, ILOG user data) decoded one after the other in ONE interpreter: the
+    PTE table is the shipped one for every log, whatever entries earlier logs have matched (exact entries, wild-card entries over the
+    same prefix, entries in between); each decode is compared with a fresh interpreter's"""
+    import struct
+    from props import c03reg
+    from io_drawer.drawer_type import DRAWER_TYPES
+    from io_drawer.ilog import PTETable
+    dt = rng.choice(DRAWER_TYPES)
+    pats = [e.pte_pattern if hasattr(e, "pte_pattern") else e.pattern for e in PTETable(dt.get_header_file_path()).entries]
+    wild = [p_ for p_ in pats if "*" in p_] or pats
+    import re as _re
+    pairs = [(w_, e_) for w_ in wild for e_ in pats if "*" not in e_ and _re.fullmatch(w_.replace("*", "."), e_, _re.IGNORECASE)]
+    hist = []
+    if pairs and rng.random() < 0.8:
+        # a PTE only the wild-card entry matches, then one a more specific entry of the same family matches (and the other way round)
+        w_, e_ = rng.choice(pairs)
+        only_w = "".join(c if c != "*" else rng.choice("0123456789ABCDEF") for c in w_)
+        fam = [int(only_w, 16), int(e_, 16)]
+        if rng.random() < 0.5:
+            fam.reverse()
+        for v in fam + [fam[0]]:
+            hist.append(c04.mini_pel(b"M", [(b"UD", dt.user_data_version, 73, 0x2C00, struct.pack(">HHI", rng.randrange(1, 4000), 1, v))]))
+    for _ in range(rng.randrange(2, 5)):
+        ptes = []
+        for _e in range(rng.randrange(1, 5)):
+            base = rng.choice(wild if rng.random() < 0.6 else pats)
+            exact = [p_ for p_ in pats if "*" not in p_ and p_[:6].upper() == base[:6].upper()]
+            pick = rng.choice(exact) if exact and rng.random() < 0.5 else "".join(c if c != "*" else rng.choice("0123456789ABCDEF") for c in base)
+            try:
+                ptes.append(int(pick, 16))
+            except ValueError:
+                ptes.append(rng.randrange(1 << 32))
+        body = b"".join(struct.pack(">HHI", rng.randrange(1, 4000), i + 1, v) for i, v in enumerate(ptes))
+        hist.append(c04.mini_pel(b"M", [(b"UD", dt.user_data_version, 73, 0x2C00, body)]))
+    w = c03reg.RegistryWorker([], {})
+    try:
+        got = [w.decode(d, True) for d in hist]
+    finally:
+        w.close()
+    for idx, d in enumerate(hist):
+        f = c03reg.RegistryWorker([], {})
+        try:
+            ref = f.decode(d, True)
+        finally:
+            f.close()
+        run.evaluations += 1
+        run.count("drawer-history")
+        if not (ref.get("kind") == got[idx].get("kind") and ref.get("text") == got[idx].get("text")):
+            run.violation("history-dependent:drawer", "decode #%d of a history of I/O-drawer logs differs from a fresh interpreter" % idx,
+                          dict(kind="S", fn="drawer-history", history=[h.hex() for h in hist], index=idx,
+                               in_history=(got[idx].get("text") or got[idx].get("kind"))[-600:], fresh=(ref.get("text") or ref.get("kind"))[-600:]))
+            break
+    run.nontriv(tuple(hist))
+
+
 def run(run, model, proof):
     rng = run.rng
     thorough = run.tier == "thorough"
     run.rule = RULE
+    for _ in range(60 if thorough else 8):
+        drawer_history(run, model, rng)
     for _ in range(100 if thorough else 12):
         registry_history(run, model, rng)
     n = 2500 if thorough else 160
